@@ -126,6 +126,12 @@ structure Node where
                        -- the harness needs it to build the world and to see writes through links.
   deriving DecidableEq, Repr, FromJson, ToJson
 
+/-- what happened earlier on the SAME manager object, with the same name / source / overwrite flag:
+`install`, `uninstall`, `get` are calls of the manager; `touchSrc` replaces the executable of the
+install source by a newer one (version 66), `dropSrc` deletes it -/
+inductive Step | install | uninstall | get | touchSrc | dropSrc
+  deriving DecidableEq, Repr, FromJson, ToJson
+
 structure Input where
   op : Op
   root : Text          -- the plugin root handed to `dir.NewSysFS` (may be unclean: "//", "/./", "x/..", trailing "/")
@@ -133,7 +139,8 @@ structure Input where
   src : Text           -- install: `CLIInstallOptions.PluginPath`; otherwise ""
   overwrite : Bool     -- install: `CLIInstallOptions.Overwrite`
   trusted : Bool       -- verify: the signing chain's root is in the trust store (false: authenticity will fail)
-  fs : List Node       -- the world before the call
+  fs : List Node       -- the world before the first call
+  history : List Step  -- earlier steps on the same manager object; the observation is that of `op`, made afterwards
   deriving Repr, FromJson, ToJson
 
 structure Obs where
@@ -309,7 +316,8 @@ def runInstall (i : Input) : Obs :=
         else if !i.overwrite then installFail [exe.path]      -- the existing plugin cannot be run
         else installFinish i src exe name [exe.path]
 
-def run (i : Input) : Obs :=
+/-- one operation on a fresh look at the world (the manager keeps no state between calls) -/
+def runOp (i : Input) : Obs :=
   match i.op with
   | .get => runGet i
   | .uninstall => runUninstall i
@@ -336,7 +344,7 @@ def plainChar (c : Char) : Bool := c.isAlphanum || c = '.' || c = '_' || c = '-'
 /-- an ordinary plugin name -/
 def plainName (n : Text) : Bool := n != [] && n != dot && n != dotdot && n.all plainChar
 
-def clauses (i : Input) (o : Obs) : Clauses :=
+def clausesOp (i : Input) (o : Obs) : Clauses :=
   let isList := i.op == .list
   let nm := effName i
   [ -- a name that is not one path component is rejected with an error ...
@@ -384,6 +392,52 @@ def clauses (i : Input) (o : Obs) : Clauses :=
       if isList then
         !o.err && o.listed == sortTexts ((i.fs.filter (fun n => n.kind = .dir && childOf (rootComps i.root) n.path)).map (fun n => baseName n.path))
       else o.listed.isEmpty) ]
+
+def HoldsOp (i : Input) (o : Obs) : Bool := (clausesOp i o).holds
+
+/-! ### histories on one manager object
+
+The manager has no memory: every call looks at the file system as it is. A history is therefore
+modelled by the world it leaves behind; the observed operation runs on that world. -/
+
+/-- the world after one earlier step -/
+def fsAfter (i : Input) (s : Step) : List Node :=
+  match s with
+  | .install =>
+    if (runInstall i).err then i.fs
+    else match installSource i.fs i.src with
+      | some (src, exe, name) =>
+        let d := dirPath i.root name
+        i.fs.filter (fun n => !under d n.path) ++
+          ({ path := d, kind := .dir, ver := 0, target := [] } :: copied i.fs src exe d)
+      | none => i.fs
+  | .uninstall =>
+    if (runUninstall i).err then i.fs
+    else i.fs.filter (fun n => !under (dirPath i.root i.name) n.path)
+  | .get => i.fs
+  | .touchSrc =>
+    match installSource i.fs i.src with
+    | some (_, exe, _) => i.fs.map (fun n => if samePath n.path exe.path then { n with ver := 66 } else n)
+    | none => i.fs
+  | .dropSrc =>
+    match installSource i.fs i.src with
+    | some (_, exe, _) => i.fs.filter (fun n => !samePath n.path exe.path)
+    | none => i.fs
+
+def stateAfter (i : Input) : List Step → List Node
+  | [] => i.fs
+  | s :: r => stateAfter { i with fs := fsAfter i s } r
+
+/-- the input the observed operation effectively sees -/
+def eff (i : Input) : Input := { i with fs := stateAfter i i.history, history := [] }
+
+def run (i : Input) : Obs := runOp (eff i)
+
+/-- the property is stated of the observed operation in the world the history left behind: in
+particular what a `get` after an `install` on the same manager runs must be
+`<root>/<name>/notation-<name>` - not the install source - and what an operation changes lies in
+`<root>/<name>`, whatever else (sibling plugins with derived names, ...) the root holds -/
+def clauses (i : Input) (o : Obs) : Clauses := clausesOp (eff i) o
 
 def Holds (i : Input) (o : Obs) : Bool := (clauses i o).holds
 
